@@ -10,7 +10,7 @@
      driven f n p i q        the step-wise scalar reference: n times { w := next(q); p.param := w; v := next(p) };
      outputs f n p           the outcomes of the next n calls of next(p) and the object afterwards;
      f is the recursion fuel of the model, binop the operator semantics (arbitrary). *)
-From Isobar Require Import Base.Prelude Pat.Val Pat.Syntax Pat.Step Pat.StepProofs Pat.Script Pat.Param Pat.ParamProofs Pat.ParamMore Pat.ParamLive Pat.ParamLiveProofs.
+From Isobar Require Import Base.Prelude Pat.Val Pat.Syntax Pat.Step Pat.StepProofs Pat.Script Pat.Param Pat.ParamProofs Pat.ParamMore Pat.ParamLive Pat.ParamLiveProofs Pat.Osc Pat.OscProofs.
 From Coq Require Import String QArith Permutation.
 Open Scope Z_scope.
 
@@ -302,4 +302,52 @@ Example C12_live_nonvacuous :
     map (fun na => Yield (VTup [VInt (fst na); VInt (snd na)])) [(48, 50); (48, 50); (60, 64); (60, 64); (72, 64); (73, 64); (74, 100); (75, 100)]
   /\ List.length (lrun_state Val.binop 10 8 [] lv_h) = 1%nat
   /\ lfind 1 (lrun_state Val.binop 10 8 [] (firstn 3 lv_h)) 0 = Some 0%nat.
+Proof. vm_compute. repeat split. Qed.
+
+(** ** (6) the oscillator classes PTri / PSaw (isobar/pattern/oscillator.py; model Pat/Osc.v) *)
+(* They are not constructors of the embedding, so the table of C12_const_equiv / C12_use_schedule does not reach them; their
+   __next__ is modelled over the same [arg] operands and the same [value].  Parameter 0 = length, 1 = min, 2 = max. *)
+Section Oscillators.
+  Variable binop : op -> val -> val -> outcome val.
+  Variable LMAX : nat.
+
+  (* scalar x / PConstant(x) / PRef(PConstant(x)) / deeper references, for every parameter, state and number of steps *)
+  Theorem C12_osc_const_equiv : forall i x da a db b f n o, (i < 3)%nat -> konst x da a -> konst x db b ->
+    (2 * da + 1 <= f)%nat -> (2 * db + 1 <= f)%nat ->
+    osc_outputs binop LMAX f n (with_ofield o i b) =
+      (let '(rs, o') := osc_outputs binop LMAX f n (with_ofield o i a) in (rs, with_ofield o' i b)).
+  Proof. exact (osc_const_equiv binop LMAX). Qed.
+
+  (* one output with pattern-valued length, min and max: it is the output for the scalars the three patterns give next,
+     and each of them has advanced by exactly one step *)
+  Theorem C12_osc_use_one_step : forall f sh ql qm qx ph l ql' m qm' x qx',
+    step binop LMAX f ql = (Yield l, ql') -> step binop LMAX f qm = (Yield m, qm') -> step binop LMAX f qx = (Yield x, qx') ->
+    osc_step binop LMAX (S f) (mkOsc sh (AP ql) (AP qm) (AP qx) ph) =
+      (let '(r, o1) := osc_step binop LMAX (S f) (mkOsc sh (AV l) (AV m) (AV x) ph) in
+       (r, mkOsc sh (AP ql') (AP qm') (AP qx') (o_phase o1))).
+  Proof. exact (osc_use_one_step binop LMAX). Qed.
+
+  (* n outputs: the k-th is computed from the k-th value of each parameter stream (osc_scalar_outputs: the plain function of
+     the three value lists), and every parameter pattern ends in the state reached by exactly n steps of its own *)
+  Theorem C12_osc_use_schedule : forall f sh n ql qm qx ph ls ms xs qln qmn qxn,
+    outputs binop LMAX f n ql = (map Yield ls, qln) -> outputs binop LMAX f n qm = (map Yield ms, qmn) ->
+    outputs binop LMAX f n qx = (map Yield xs, qxn) ->
+    osc_outputs binop LMAX (S f) n (mkOsc sh (AP ql) (AP qm) (AP qx) ph) =
+      (fst (osc_scalar_outputs sh ls ms xs ph),
+       mkOsc sh (AP qln) (AP qmn) (AP qxn) (snd (osc_scalar_outputs sh ls ms xs ph))).
+  Proof. exact (osc_use_schedule binop LMAX). Qed.
+End Oscillators.
+Print Assumptions C12_osc_const_equiv.
+Print Assumptions C12_osc_use_schedule.
+
+(* PTri(8, PSequence([0, 0.25, 0.5, 0.75, ...]), 10) of seeded/C12-j/demo.py: outputs 0, 2.6875, 5.25, 7.6875, 10, ... and after
+   five steps the min stream has given exactly five values *)
+Example C12_osc_nonvacuous :
+  let mins := PSequence (AL [AV (VFlt 0); AV (VFlt (1 # 4)); AV (VFlt (1 # 2)); AV (VFlt (3 # 4)); AV (VFlt 1); AV (VFlt (5 # 4))]) (AV (VInt 9)) 0 0 in
+  let o := mkOsc Tri (AP (PConstant (VInt 8))) (AP mins) (AP (PRef (AP (PConstant (VInt 10))))) (VFlt 0) in
+  fst (osc_outputs Val.binop 10 8 5 o) = [Yield (VFlt 0); Yield (VFlt (43 # 16)); Yield (VFlt (21 # 4)); Yield (VFlt (123 # 16)); Yield (VFlt 10)]
+  /\ o_min (snd (osc_outputs Val.binop 10 8 5 o)) =
+       AP (PSequence (AL [AV (VFlt 0); AV (VFlt (1 # 4)); AV (VFlt (1 # 2)); AV (VFlt (3 # 4)); AV (VFlt 1); AV (VFlt (5 # 4))]) (AV (VInt 9)) 0 5)
+  /\ fst (osc_scalar_outputs Tri (repeat (VInt 8) 5) [VFlt 0; VFlt (1 # 4); VFlt (1 # 2); VFlt (3 # 4); VFlt 1] (repeat (VInt 10) 5) (VFlt 0))
+     = fst (osc_outputs Val.binop 10 8 5 o).
 Proof. vm_compute. repeat split. Qed.
